@@ -69,9 +69,15 @@ def ms_of_obstime(t):
 
 
 # --- tracks -------------------------------------------------------------------------------------
-def make_track(pts, times_ms=None, features=None):
+def as_int_if_integral(v):
+    """the same number as a Python int when it is integer-valued (users build ENUCoords(10, 0, 0) as often as
+    ENUCoords(10.0, 0.0, 0.0)); code that lets numpy infer an integer dtype from such input then truncates"""
+    return int(v) if isinstance(v, float) and v == int(v) and abs(v) < 2 ** 52 else v
+
+
+def make_track(pts, times_ms=None, features=None, ints=False):
     """ENU track from pts = [(x, y) | (x, y, z)], times in epoch ms (default: 1 s apart from 2020-01-01),
-    features = {name: [values]} (optional)."""
+    features = {name: [values]} (optional).  ints=True hands integer-valued coordinates over as Python ints."""
     from tracklib.core.obs import Obs
     from tracklib.core.obs_coords import ENUCoords
     from tracklib.core.track import Track
@@ -81,7 +87,10 @@ def make_track(pts, times_ms=None, features=None):
     tr = Track([], 1)
     for p, t in zip(pts, times_ms):
         z = p[2] if len(p) > 2 else 0.0
-        tr.addObs(Obs(ENUCoords(p[0], p[1], z), obstime_of_ms(t)))
+        if ints:
+            tr.addObs(Obs(ENUCoords(as_int_if_integral(p[0]), as_int_if_integral(p[1]), as_int_if_integral(z)), obstime_of_ms(t)))
+        else:
+            tr.addObs(Obs(ENUCoords(p[0], p[1], z), obstime_of_ms(t)))
     for name, vals in (features or {}).items():
         tr.createAnalyticalFeature(name, list(vals))
     return tr
